@@ -59,7 +59,14 @@ func c19program(rng *rand.Rand, names []string) string {
 	n := func() string { return names[rng.Intn(len(names))] }
 	k := c19errKinds[rng.Intn(len(c19errKinds))]
 	protos := []string{"Int", "Str", "Arr", "Obj", "Kernel", "JSON", "Map", "Either", "Iterable", "Nil", "Err"}
-	switch rng.Intn(29) {
+	switch rng.Intn(30) {
+	case 29:
+		// the shared `_` object taken out of a prototype as a plain value (no property call, no indexing of
+		// the prototype itself) and raised afterwards
+		e := []string{"Obj.callProp(Either, 'val)", "Either.values[0]", "Either.items[0][1]", "Either.values._iter.next", "Either._iter.next[1]",
+			"{|x| x}(Either.values[0])", "Either.values@{|x| x}", "%{1: Either.values}[1][0]", "{|x| \\_.val}(**Either)", "Either.values.A[1]",
+			"Either.values@first", "Either.values.exclude {|v| v == 1}"}[rng.Intn(12)]
+		return strings.Repeat("\n", rng.Intn(3)) + "1.try.fmap {|x| " + e + "}.err.type.p\n" + e
 	case 20:
 		// two ** expansions whose first operand is a shared built-in object
 		return fmt.Sprintf("\"a\".p(**%s, **{leak_%s: 42})", protos[rng.Intn(len(protos))], n())
